@@ -2714,6 +2714,11 @@ func (p *Parser) testExprBinary(pastAndOr bool) TestExpr {
 		if b.Y = p.testExprBinary(false); b.Y == nil {
 			p.followErrExp(b.OpPos, b.Op)
 		}
+		// && binds tighter than ||, so "a && b || c" is "(a && b) || c".
+		if y, ok := b.Y.(*BinaryTest); ok && b.Op == AndTest && y.Op == OrTest {
+			b.Y, y.X = y.X, b
+			return y
+		}
 	case TsReMatch:
 		p.checkLang(p.pos, langBashLike|LangZsh, "regex tests")
 		p.rxOpenParens = 0
